@@ -21,17 +21,21 @@ import (
 	"strings"
 	"sync"
 	"testing"
+	"time"
 
 	"google.golang.org/grpc"
 	"google.golang.org/grpc/codes"
 	"google.golang.org/grpc/status"
+	"google.golang.org/protobuf/types/known/timestamppb"
 	"pgregory.net/rapid"
 
 	"github.com/ozontech/seq-db/consts"
 	"github.com/ozontech/seq-db/disk"
+	"github.com/ozontech/seq-db/pkg/seqproxyapi/v1"
 	"github.com/ozontech/seq-db/pkg/storeapi"
 	"github.com/ozontech/seq-db/proxy/search"
 	"github.com/ozontech/seq-db/proxy/stores"
+	"github.com/ozontech/seq-db/proxyapi"
 	"github.com/ozontech/seq-db/querytracer"
 	"github.com/ozontech/seq-db/seq"
 
@@ -106,7 +110,7 @@ type Case struct {
 	// a random order (global math/rand source).  The oracle then uses the order in which the
 	// fakes saw the Search calls; replicas never asked count as asked last.
 	Shuffle bool `json:"shuffle,omitempty"`
-	Docs    bool `json:"docs,omitempty"`     // operation: false Search, true Documents (the Fetch API)
+	Docs    bool `json:"docs,omitempty"` // operation: false Search, true Documents (the Fetch API)
 
 	Q         *model.Q `json:"q"`
 	Text      string   `json:"text"`
@@ -907,6 +911,9 @@ func runCase(c Case) (evid.Result, error) {
 		} else {
 			labels["op=search"] = true
 			nontrivial, err = runSearch(&c, w, ing, bodies, labels, &res)
+			if err == nil {
+				err = exportPass(&c, w, ing, labels, &res)
+			}
 		}
 	}()
 	if err != nil {
@@ -924,6 +931,80 @@ func runCase(c Case) (evid.Result, error) {
 }
 
 // firstFrameAfter returns the function line of the stack frame that follows the first one.
+// exportPass: the same search through the proxy's Export API (proxyapi/grpc_export.go, built
+// in-process over the same ingestor and fakes).  ExportResponse carries documents only, so the
+// one way to flag an incomplete export is the status the stream ends with: when the only
+// admissible outcome of the search is a partial result the export must not end with OK; when it
+// is a complete result the export ends with OK and streams exactly the page's documents.
+// Exports use the default (descending) order; replica shuffling is left out because the two
+// runs could meet the replicas in different orders.
+type exportStream struct {
+	grpc.ServerStream
+	ids []model.ID
+}
+
+func (s *exportStream) Context() context.Context { return context.Background() }
+func (s *exportStream) Send(r *seqproxyapi.ExportResponse) error {
+	id, err := seq.FromString(r.GetDoc().GetId())
+	if err != nil {
+		return err
+	}
+	s.ids = append(s.ids, model.ID{MID: uint64(id.MID), RID: uint64(id.RID)})
+	return nil
+}
+
+type allowAll struct{}
+
+func (allowAll) Account(string) bool { return true }
+
+func exportPass(c *Case, w *world, ing *search.Ingestor, labels map[string]bool, res *evid.Result) error {
+	if c.Asc || c.Shuffle || c.To > 4_000_000_000_000 || c.Size <= 0 {
+		return nil
+	}
+	outs, _ := admissible(c, w)
+	if len(outs) != 1 || outs[0].fatal {
+		return nil
+	}
+	api := proxyapi.VerifNewGrpcV1(proxyapi.APIConfig{SearchTimeout: time.Minute, ExportTimeout: time.Minute}, ing, nil, allowAll{})
+	st := &exportStream{}
+	err := api.Export(&seqproxyapi.ExportRequest{
+		Query:  &seqproxyapi.SearchQuery{Query: c.Text, From: timestamppb.New(time.UnixMilli(int64(c.From))), To: timestamppb.New(time.UnixMilli(int64(c.To)))},
+		Size:   int64(c.Size),
+		Offset: int64(c.Offset),
+	}, st)
+	res.Evals++
+	if outs[0].partial {
+		labels["export:of-a-partial-result"] = true
+		if err == nil {
+			return evid.Failf("export-hides-partial-response", "Export of %q ended with OK after %d documents although a shard had no answering replica (%s): nothing tells the client that the export is incomplete", c.Text, len(st.ids), outs[0].name)
+		}
+		return nil
+	}
+	labels["export:of-a-complete-result"] = true
+	if err != nil {
+		// as for Search: the fetch stage may fail the request when a store refuses the stream
+		_, logs := indexFetches(w)
+		for _, l := range logs {
+			if l.openErr {
+				labels["export:fetch-stream-refused"] = true
+				return nil
+			}
+		}
+		return evid.Failf("export-fails-complete-result", "Export of %q failed with %v although every shard answered", c.Text, err)
+	}
+	if _, logs := indexFetches(w); len(logs) > 0 {
+		for _, l := range logs {
+			if c.tier(l.tier).Hosts[l.shard][l.rep].F != fOK {
+				return nil // a misbehaving fetch stream: which documents arrive is the document clause's business
+			}
+		}
+	}
+	if want := expectedPage(c, outs[0]); !model.EqualIDs(st.ids, want) {
+		return evid.Failf("export-ids-mismatch", "Export of %q streamed %s, the page is %s", c.Text, fmtIDs(st.ids), fmtIDs(want))
+	}
+	return nil
+}
+
 func firstFrameAfter(st string) string {
 	lines := strings.Split(st, "\n")
 	if len(lines) > 2 {
